@@ -17,6 +17,7 @@ import (
 	"github.com/kubewharf/kubebrain/pkg/backend"
 	"github.com/kubewharf/kubebrain/pkg/backend/coder"
 	"github.com/kubewharf/kubebrain/pkg/backend/scanner"
+	"github.com/kubewharf/kubebrain/pkg/server/service/leader"
 	"github.com/kubewharf/kubebrain/pkg/storage"
 	"github.com/kubewharf/kubebrain/pkg/verifhook"
 )
@@ -56,6 +57,25 @@ type backendSuite struct {
 
 	// highest revision seen in any write response header (for `sync`)
 	maxHdr uint64
+}
+
+// campaignBackend is the Backend handed to the real leader election: it records the revision the new
+// leader installs and whether the node already reported itself leader when it was installed.
+type campaignBackend struct {
+	backend.Backend
+	isLeader func() bool
+	lastSet  uint64
+	sets     int32
+	early    int32
+}
+
+func (c *campaignBackend) SetCurrentRevision(r uint64) {
+	if c.isLeader != nil && c.isLeader() {
+		atomic.StoreInt32(&c.early, 1)
+	}
+	atomic.StoreUint64(&c.lastSet, r)
+	atomic.AddInt32(&c.sets, 1)
+	c.Backend.SetCurrentRevision(r)
 }
 
 func (s *backendSuite) noteHdr(h *proto.ResponseHeader) {
@@ -542,7 +562,11 @@ func (s *backendSuite) do(t []string) string {
 	case "restart":
 		// a new leader over the same store, initialised exactly as leader.go does: acquire the lock
 		// (Get, then Create or Update), parse the engine timestamp from Describe(), SetCurrentRevision
-		b2 := s.newBackend("id-" + fmt.Sprint(len(s.watchers)+2) + "-" + fmt.Sprint(time.Now().UnixNano()))
+		ident := "id-" + fmt.Sprint(len(s.watchers)+2) + "-" + fmt.Sprint(time.Now().UnixNano())
+		if v, ok := opts["id"]; ok {
+			ident = v
+		}
+		b2 := s.newBackend(ident)
 		lock := b2.GetResourceLock()
 		rec, err := lock.Get()
 		if err != nil {
@@ -571,6 +595,44 @@ func (s *backendSuite) do(t []string) string {
 			return "restart above"
 		}
 		return fmt.Sprintf("restart lag ts=%d maxstored=%d", ts, maxStored)
+	case "campaign":
+		// campaign id=<identity> [f=tso]: a new node over the same store becomes leader through the REAL
+		// leader.NewLeaderElection(...).Campaign() (client-go elector + pkg/server/service/leader callbacks).
+		// With the identity that holds the lock record the elector takes over at once (a restarted node).
+		// f=tso: the engine-timestamp read that follows the elector's first lock write fails.
+		// Once per process: the elector goroutine cannot be stopped (RunOrDie on context.Background()).
+		ident := opts["id"]
+		b2 := s.newBackend(ident)
+		cb := &campaignBackend{Backend: b2}
+		started := make(chan struct{})
+		le := leader.NewLeaderElection(cb, getMetrics(), func(context.Context) { close(started) }, func() {})
+		cb.isLeader = le.IsLeader
+		if opts["f"] == "tso" {
+			s.c.mu.Lock()
+			s.c.tsoArmed = true
+			s.c.mu.Unlock()
+		}
+		go le.Campaign()
+		select {
+		case <-started:
+		case <-time.After(30 * time.Second):
+			return "campaign timeout"
+		}
+		s.b = b2
+		s.hmu.Lock()
+		s.maxHdr = 0
+		s.hmu.Unlock()
+		ts := atomic.LoadUint64(&cb.lastSet)
+		maxStored := s.maxStoredRevision()
+		s.c.mu.Lock()
+		fired := s.c.tsoFired
+		s.c.mu.Unlock()
+		verdict := "above"
+		if ts < maxStored {
+			verdict = "lag"
+		}
+		return fmt.Sprintf("campaign %s ts=%d maxstored=%d early=%d sets=%d tsofaults=%d leader=%v", verdict, ts, maxStored,
+			atomic.LoadInt32(&cb.early), atomic.LoadInt32(&cb.sets), fired, le.IsLeader())
 	case "retry":
 		// release one parked retry step (gate retry.step must be armed) with the given fault for its commit
 		s.setFaults(opts)
